@@ -1366,7 +1366,7 @@ class GenScope:
                 n = prefix + ''.join(rng.choice(alpha + '_0123456789' if i else alpha) for i in range(rng.randint(1, 4)))
                 yield n
         self.locals = []
-        gen = mk('_v')
+        gen = mk('_u')   # never collides with the reserved names _vt, _i, _x, _this, _w<digits>
         while len(self.locals) < 3:
             n = next(gen)
             if n not in self.locals:
